@@ -56,6 +56,10 @@ def build(sh):
             tri = np.array(sh["triangles"], dtype=int)
         else:
             tri = mesh.make_convex_mesh(vs)
+        if sh.get("flip_winding") and not sh.get("winding_done"):
+            import random as _random
+            rr = _random.Random(int(sh["flip_winding"]))
+            tri = np.array([[t[0], t[2], t[1]] if rr.random() < 0.5 else list(t) for t in np.asarray(tri).tolist()], dtype=tri.dtype)
         c = colliders.MeshGraph(pose4(sh["R"], sh["t"]), vs, tri)
         sf = c._support_function
         extra["triangles"] = np.asarray(tri).astype(int).tolist()
@@ -90,7 +94,7 @@ def interpreted_replay(case, out, tracer_mods):
     sh = case["shape"]
     diffs = []
     with st.interpreted(tracer_mods):
-        c, _ = build(dict(sh, triangles=out.get("triangles")))
+        c, _ = build(dict(sh, triangles=out.get("triangles"), winding_done=True))
         col = c if case.get("margin") is None else colliders.Margin(c, float(case["margin"]))
         if not same_bits(col.first_vertex(), out["first_vertex"]):
             diffs.append("first_vertex")
@@ -110,6 +114,26 @@ def interpreted_replay(case, out, tracer_mods):
     return diffs
 
 
+def array_state(obj):
+    """copies of the numpy arrays a collider holds (its pose, sizes, vertices, ...)"""
+    st8 = {}
+    for name, val in vars(obj).items():
+        if isinstance(val, np.ndarray):
+            st8[name] = val.copy()
+    sf = getattr(obj, "_support_function", None)
+    if sf is not None:
+        for name, val in vars(sf).items():
+            if isinstance(val, np.ndarray):
+                st8["_support_function." + name] = val.copy()
+    return st8
+
+
+def changed(before, obj):
+    after = array_state(obj)
+    return sorted(k for k in before if k not in after or before[k].shape != after[k].shape
+                  or not np.array_equal(before[k], after[k], equal_nan=True))
+
+
 def run_case(case, tracer, tracer_mods):
     out = {}
     sh = case["shape"]
@@ -124,21 +148,37 @@ def run_case(case, tracer, tracer_mods):
         col = c
         if case.get("margin") is not None:
             col = colliders.Margin(c, float(case["margin"]))
+        state0 = array_state(c)
         out["first_vertex"] = fl(col.first_vertex())
         out["center"] = fl(col.center())
         sup = []
         idxs = []
-        for d in case["dirs"]:
-            sup.append(fl(col.support_function(arr(d))))
+        modified = []
+        for i, d in enumerate(case["dirs"]):
+            da = arr(d)
+            sup.append(fl(col.support_function(da)))
+            if not np.array_equal(da, arr(d), equal_nan=True):
+                modified.append(f"support_function(dirs[{i}]) modified its argument")
             if sh["kind"] == "mesh":
                 idxs.append(int(c._support_function.first_idx))
+        ch = changed(state0, c)
+        if ch:
+            modified.append(f"the queries modified the collider's arrays {ch}")
+        out["modified"] = modified
+        # the first query again, after all the others: same object, same direction
+        if case["dirs"]:
+            if sh["kind"] == "mesh":
+                c._support_function.first_idx = extra["first_idx0"]
+            out["again0"] = fl(col.support_function(arr(case["dirs"][0])))
+            if sh["kind"] == "mesh":
+                c._support_function.first_idx = idxs[-1]
         out["sup"] = sup
         if sh["kind"] == "mesh":
             out["seq_idx"] = idxs
             fresh = []
             fresh_idx = []
             for d in case["dirs"]:
-                c2, _ = build(dict(sh, triangles=out["triangles"]))
+                c2, _ = build(dict(sh, triangles=out["triangles"], winding_done=True))
                 col2 = c2 if case.get("margin") is None else colliders.Margin(c2, float(case["margin"]))
                 fresh.append(fl(col2.support_function(arr(d))))
                 fresh_idx.append(int(c2._support_function.first_idx))
